@@ -27,14 +27,37 @@ def _client():
     return _APP[0]
 
 
-def _get(path, params):
+def _literal(v, style):
+    """A text of the float v in the given style; every style parses back to exactly v (else repr is used)."""
+    r = repr(v)
+    if style == "int" and float(v).is_integer() and abs(v) < 1e15:
+        t = "%d" % v
+    elif style == "plus" and not r.startswith("-"):
+        t = "+" + r
+    elif style == "exp":
+        t = "%.17e" % v
+    elif style == "EXP":
+        t = ("%.17e" % v).upper()
+    elif style == "zeros" and "." in r and "e" not in r and "E" not in r:
+        t = r + "000"
+    elif style == "lead0" and "e" not in r and "E" not in r and "n" not in r:
+        t = ("-0" + r[1:]) if r.startswith("-") else ("0" + r)
+    else:
+        t = r
+    return t if float(t) == v and (math.copysign(1.0, float(t)) == math.copysign(1.0, v)) else r
+
+
+def _get(path, params, style="repr"):
     c = _client()
-    q = {k: (repr(v) if isinstance(v, float) else v) for k, v in params.items() if v is not None}
+    q = {k: (_literal(v, style) if isinstance(v, float) else v) for k, v in params.items() if v is not None}
     url = path + "?" + urlencode(q)
     resp = c.get(url)
     if resp.status_code != 200:
         raise Fail("%s returned status %d" % (path, resp.status_code), expected=200, observed={"url": url, "body": resp.get_data(as_text=True)[:300]},
                    bucket="%s status" % path)
+    if resp.mimetype != "application/json":
+        raise Fail("%s did not declare its body as JSON" % path, expected="application/json", observed={"url": url, "mimetype": resp.mimetype},
+                   bucket="%s content type" % path)
     try:
         return url, json.loads(resp.get_data(as_text=True))
     except ValueError:
@@ -69,7 +92,7 @@ def check_vincinv(case):
     params = dict(args)
     params["from_angle_type"] = case["from"]
     params["to_angle_type"] = case["to"]
-    url, got = _get("/vincinv", params)
+    url, got = _get("/vincinv", params, case.get("lit", "repr"))
     if got != want:
         raise Fail("/vincinv does not return exactly the library's values for the same arguments",
                    expected=want, observed={"url": url, "json": got}, bucket="vincinv values")
@@ -87,7 +110,7 @@ def check_vincdir(case):
     params["ell_dist"] = case["ell_dist"]
     params["from_angle_type"] = case["from"]
     params["to_angle_type"] = case["to"]
-    url, got = _get("/vincdir", params)
+    url, got = _get("/vincdir", params, case.get("lit", "repr"))
     if got != want:
         raise Fail("/vincdir does not return exactly the library's values for the same arguments",
                    expected=want, observed={"url": url, "json": got}, bucket="vincdir values")
@@ -104,9 +127,26 @@ def check_index(case):
     for need in ("/vincinv", "/vincdir", "/"):
         if need not in rules:
             raise Fail("endpoint %s is no longer routed" % need, expected=need, observed=rules)
-    missing = [r for r in rules if ("'%s'" % r) not in body and ('"%s"' % r) not in body]
+    try:
+        listed = set(_strings(json.loads(body)))
+        missing = [r for r in rules if r not in listed]
+    except ValueError:
+        # not JSON: any textual listing that names every endpoint ("/" itself cannot be told from the others' first character)
+        missing = [r for r in rules if r != "/" and r not in body]
     if missing:
         raise Fail("the index route does not list every endpoint", expected=rules, observed={"body": body, "missing": missing})
+
+
+def _strings(x):
+    if isinstance(x, str):
+        yield x
+    elif isinstance(x, dict):
+        for k, v in x.items():
+            yield from _strings(k)
+            yield from _strings(v)
+    elif isinstance(x, (list, tuple)):
+        for v in x:
+            yield from _strings(v)
 
 
 def enumerate_index(tier, seed, shard, nshards):
@@ -127,13 +167,21 @@ def _hp_fields(dmax, signed=True):
 
 
 def _angle(lim, dmax, signed=True, extra=()):
-    x = st.one_of(S.floats(-lim if signed else 0.0, lim), st.sampled_from(list(extra) + [0.0]))
-    return st.tuples(x, _hp_fields(dmax, signed)).map(list)
+    x = st.one_of(S.floats(-lim if signed else 0.0, lim), st.sampled_from(list(extra) + [0.0]),
+                  st.integers(-int(lim) if signed else 0, int(lim)).map(float))
+    # HP fields, including the end of the range itself (90 / 180 / 360 deg 00' 00")
+    f = st.one_of(_hp_fields(dmax, signed), _hp_fields(dmax, signed), _hp_fields(dmax, signed),
+                  st.tuples(st.booleans() if signed else st.just(False), st.just(dmax + 1), st.just(0), st.just(0)).map(list),
+                  st.tuples(st.booleans() if signed else st.just(False), st.integers(0, dmax), st.integers(0, 59), st.just(0)).map(list))
+    return st.tuples(x, f).map(list)
+
+
+lit_s = st.sampled_from(["repr", "repr", "repr", "int", "int", "plus", "exp", "EXP", "zeros", "lead0"])
 
 
 @st.composite
 def inv_cases(draw):
-    c = {"from": draw(atype), "to": draw(atype)}
+    c = {"from": draw(atype), "to": draw(atype), "lit": draw(lit_s)}
     c["lat1"] = draw(_angle(90.0, 89, extra=[-37.8, 45.0, 90.0, -90.0]))
     c["lon1"] = draw(_angle(180.0, 179, extra=[144.9, -179.5, 179.5]))
     c["lat2"] = draw(_angle(90.0, 89, extra=[-37.8]))
@@ -148,8 +196,9 @@ def inv_cases(draw):
 
 @st.composite
 def dir_cases(draw):
-    c = {"from": draw(atype), "to": draw(atype),
-         "ell_dist": draw(st.one_of(S.floats(0.0, 2e7), S.log_uniform(1e-3, 2e7), st.sampled_from([0.0, 54972.271, 1e7])))}
+    c = {"from": draw(atype), "to": draw(atype), "lit": draw(lit_s),
+         "ell_dist": draw(st.one_of(S.floats(0.0, 2e7), S.log_uniform(1e-3, 2e7), st.sampled_from([0.0, 54972.271, 1e7]),
+                                    st.integers(0, 20000000).map(float)))}
     c["lat1"] = draw(_angle(90.0, 89, extra=[-37.57037203, 90.0]))
     c["lon1"] = draw(_angle(180.0, 179, extra=[144.25295244, -180.0]))
     c["azimuth1to2"] = draw(_angle(360.0, 359, signed=False, extra=[90.0, 306.520537, 360.0]))
@@ -165,15 +214,16 @@ def _classes(case):
     lat = case["lat1"]
     south = lat[1][0] if case["from"] == "dms" else lat[0] < 0
     out.append("southern" if south else "northern")
+    out.append("literal:" + case.get("lit", "repr"))
     return out
 
 
 SUBCHECKS = [
     SubCheck("vincinv_endpoint", check_vincinv, strategy=inv_cases(), nontrivial=_nt, classes=_classes, quick=1500, thorough=60000,
-             shards_quick=3, shards_thorough=12, seq_groups=[["from"], ["to"], ["lat2", "lon2"]],
+             shards_quick=3, shards_thorough=12, seq_groups=[["from"], ["to"], ["lat2", "lon2"], ["lit"]],
              rule="GET /vincinv == vincinv on the same arguments, HP conversion iff dms, all 9 type combinations; sequences vary only the types"),
     SubCheck("vincdir_endpoint", check_vincdir, strategy=dir_cases(), nontrivial=_nt, classes=_classes, quick=1500, thorough=60000,
-             shards_quick=3, shards_thorough=12, seq_groups=[["from"], ["to"], ["ell_dist"]],
+             shards_quick=3, shards_thorough=12, seq_groups=[["from"], ["to"], ["ell_dist"], ["lit"]],
              rule="GET /vincdir == vincdir on the same arguments, HP conversion iff dms, all 9 type combinations"),
     SubCheck("index_route", check_index, enumerate=enumerate_index, shards_quick=1, shards_thorough=1, exhaustive="both",
              rule="GET / lists every routed endpoint (complete: the URL map is enumerated)"),
